@@ -106,7 +106,17 @@ def make_case(rng, i, tier):
         if len(b) > len(s):
             bad.append(b[:-1])
             bad.append(b[1:])
-    return {"id": i, "grammar": "\n".join(lines) + "\n", "charset": cs, "terms": terms, "ignore": ignore, "rules": rules, "strings": strings, "bad_bytes": bad[:12]}
+    mb = [list(ch.encode("utf-8")) for ch in cs if len(ch.encode("utf-8")) >= 3]
+    for b1 in mb:
+        for b2 in mb:
+            if b1 != b2 and len(b1) == len(b2):
+                # byte mixes of two characters of equal length (same lead byte, continuation bytes exchanged)
+                for cut in range(1, len(b1)):
+                    mix = b1[:cut] + b2[cut:]
+                    if mix not in mb:
+                        bad.append(mix)
+                        bad.append([ord("1")] + mix + [ord("1")] if "1" in cs else mix + mix)
+    return {"id": i, "grammar": "\n".join(lines) + "\n", "charset": cs, "terms": terms, "ignore": ignore, "rules": rules, "strings": strings, "bad_bytes": bad[:12] + bad[12:][-24:]}
 
 
 def _lit_ast(lit):
@@ -258,7 +268,9 @@ def run(ctx):
                             dec = None
                         w = (dec in c["strings"] and want[c["strings"].index(dec)]) if dec is not None else False
                         if dec is not None and dec not in c["strings"]:
-                            continue
+                            if all(ch in c["charset"] or ch in "qz9" for ch in dec):
+                                continue            # a longer string over the character set: not enumerated
+                            w = False               # contains a character no terminal of the generated grammar can match
                         if isinstance(g, dict) or g != w:
                             semantic.append(_viol(c, hs, "byte_cfg", b, {"impl": g, "expected": w, "note": "not the UTF-8 encoding of an accepted string" if not w else ""}))
                         else:
